@@ -759,7 +759,8 @@ fn ev_stream(set: &str, cmds: &[(String, Vec<(String, Value)>)], buflen: usize) 
 /// lengths for variable commands.  (Input generation only; the oracle is MacCmds.tla.)
 fn parse_inputs(set: &str, rng: &mut StdRng, thorough: bool) -> Vec<Vec<u8>> {
     let mut v: Vec<Vec<u8>> = Vec::new();
-    let boundary: [u8; 10] = [0, 1, 2, 0x0F, 0x10, 0x7F, 0x80, 0xF0, 0xFE, 0xFF];
+    // boundaries of 2..8-bit sub-fields (and of their signed readings)
+    let boundary: [u8; 22] = [0, 1, 2, 3, 4, 7, 8, 0x0F, 0x10, 0x1F, 0x20, 0x21, 0x3F, 0x40, 0x7F, 0x80, 0x81, 0xC0, 0xE0, 0xF0, 0xFE, 0xFF];
     for c in CREATORS.iter().filter(|c| c.0 == set) {
         let cmd = cmdobs::make_creator(set, c.1).built();
         let (cid, plen) = (cmd[0], cmd.len() - 1);
@@ -771,7 +772,9 @@ fn parse_inputs(set: &str, rng: &mut StdRng, thorough: bool) -> Vec<Vec<u8>> {
             continue;
         }
         for pos in 0..plen {
-            let vals: Vec<u8> = if plen == 1 || thorough {
+            // short payloads: every value of every octet (sub-field boundaries such as the -32 of a 6-bit signed
+            // field are then hit whatever the layout); longer ones: the boundary list plus random values
+            let vals: Vec<u8> = if plen <= 4 || thorough {
                 (0..=255).collect()
             } else {
                 let mut x = boundary.to_vec();
